@@ -43,6 +43,9 @@ type Scenario struct {
 	Receiving  int      `json:"receiving,omitempty"`
 	Gated      bool     `json:"gated,omitempty"`
 	Backlog    bool     `json:"backlog,omitempty"`
+	Feed       int      `json:"feed,omitempty"`
+	Restart    bool     `json:"restart,omitempty"`
+	Raw        bool     `json:"raw,omitempty"`
 }
 
 type Outcome struct {
@@ -60,6 +63,7 @@ type Outcome struct {
 	Hangs       int                            `json:"hangs,omitempty"`
 	Buffers     map[string]map[string][]uint32 `json:"buffers,omitempty"`
 	Latest      map[string]uint32              `json:"latest,omitempty"`
+	MPDTrace    map[string][]string            `json:"mpd_trace,omitempty"`
 }
 
 type race struct {
@@ -157,6 +161,20 @@ func scenarios(c *lib.Ctx, rng *rand.Rand) []Scenario {
 			chs = append(chs, fmt.Sprintf("g%d", k))
 		}
 		scs = append(scs, Scenario{Channels: chs, Tracks: mkTracks(cfg[1]), Gated: true, Rounds: 1 + rounds/4})
+	}
+	// several channels fed at the same time, number by number; every channel's MPD after every number
+	for _, cfg := range [][2]int{{3, 2}, {4, 3}} {
+		var chs []string
+		for k := 0; k < cfg[0]; k++ {
+			chs = append(chs, fmt.Sprintf("f%d", k))
+		}
+		scs = append(scs, Scenario{Channels: chs, Tracks: oneVideoTracks(cfg[1]), Feed: 10, Rounds: rounds / 2})
+	}
+	// a restarted receiver (storage left by an earlier run): per track a request without credentials, then the
+	// authorised uploads, tracks concurrently; also in raw-segment mode
+	for _, n := range []int{2, 4, 8} {
+		scs = append(scs, Scenario{Channels: []string{"rs"}, Tracks: oneVideoTracks(n), Auth: true, Restart: true, Rounds: rounds / 2})
+		scs = append(scs, Scenario{Channels: []string{"rw"}, Tracks: oneVideoTracks(n), Auth: true, Restart: true, Raw: true, Rounds: rounds / 2})
 	}
 	// more messages outstanding than the channel's queue holds while the channel goroutine waits for the MPD mutex
 	for _, n := range []int{6, 8} {
@@ -459,9 +477,30 @@ func run(c *lib.Ctx) error {
 		if sc.Backlog {
 			nUp = 6 * len(sc.Tracks)
 		}
+		if sc.Feed > 0 {
+			nUp = (1 + sc.Feed) * len(sc.Channels) * len(sc.Tracks)
+		}
+		if sc.Restart {
+			half := (len(sc.Tracks) + 1) / 2
+			nUp = 2*half + len(sc.Tracks) + (len(sc.Tracks) - half) // earlier run, authorised segment 2, init of the new tracks
+			if o.Statuses["401"] != len(sc.Tracks) {
+				c.Fail(id, "unauthorised-not-refused", fmt.Sprintf("statuses %v: %d requests without credentials must be answered 401", o.Statuses, len(sc.Tracks)), sc)
+				continue
+			}
+		}
 		if o.Statuses["200"] != nUp {
 			c.Fail(id, "upload-refused", fmt.Sprintf("statuses %v for %d uploads", o.Statuses, nUp), sc)
 			continue
+		}
+		if sc.Feed > 0 && !sc.Sequential {
+			if r, ok := ref[o.Scenario+1]; ok {
+				for _, ch := range sc.Channels {
+					if strings.Join(o.MPDTrace[ch], " | ") != strings.Join(r.MPDTrace[ch], " | ") {
+						c.Fail(id, "mpd-differs-from-sequential", fmt.Sprintf("channel %s fed together with %d other channels: its timeline MPD after each number was %v; fed alone in turn: %v", ch, len(sc.Channels)-1, o.MPDTrace[ch], r.MPDTrace[ch]), sc)
+						break
+					}
+				}
+			}
 		}
 		var want []string
 		for _, t := range sc.Tracks {
@@ -479,7 +518,7 @@ func run(c *lib.Ctx) error {
 		if bad {
 			continue
 		}
-		{
+		if !sc.Raw { // raw-segment mode keeps no master track / trIDs; it is compared with its sequential reference below
 			adm := admissibleMasters(sc.Tracks)
 			for _, ch := range sc.Channels {
 				if !adm[o.Masters[ch]] || strings.Join(o.TrIDs[ch], ",") != strings.Join(want, ",") {
